@@ -376,22 +376,9 @@ Proof.
   - simpl. apply (aset_keys_nodup k3_eqb k3_eqb_spec). exact U.
 Qed.
 
-Lemma validate_share s st a o amt sh : validate_undelegation s st a o amt = Some sh -> sh <= share_of s st a o.
+Lemma Inv_remove_share s st a o sh s' : do_remove_share s st a o sh = Some s' -> Inv s -> Inv s'.
 Proof.
-  unfold validate_undelegation, share_of.
-  destruct (aget k3_eqb (st_rows s) (st, a, o)) as [mine|]; [|discriminate].
-  destruct (aget k2_eqb (st_pools s) (o, a)) as [p|]; [|discriminate].
-  destruct (SharesFromTokens _ amt _); try discriminate.
-  destruct (SharesFromTokens _ 1 _); try discriminate.
-  destruct (a0 >? mine) eqn:E; [discriminate|]. rewrite Z.gtb_ltb in E. apply Z.ltb_ge in E.
-  intros H. injection H as <-. destruct (_ <? _); lia.
-Qed.
-
-Lemma Inv_undelegate ops s st a o amt s' : do_undelegate ops s st a o amt = Some s' -> Inv s -> Inv s'.
-Proof.
-  unfold do_undelegate. intros H I. destruct I as [T L1 L2 L3 R N U].
-  destruct (negb (amt >? 0)); [discriminate|]. destruct (negb (mem o ops)); [discriminate|].
-  destruct (validate_undelegation s st a o amt) as [sh|] eqn:V; [|discriminate].
+  unfold do_remove_share. intros H I. destruct I as [T L1 L2 L3 R N U].
   destruct (negb (sh >? 0)) eqn:Es; [discriminate|]. apply negb_false_iff in Es. rewrite Z.gtb_ltb in Es. apply Z.ltb_lt in Es.
   destruct (sh >? p_tot (pool_of s o a)) eqn:Et; [discriminate|]. rewrite Z.gtb_ltb in Et. apply Z.ltb_ge in Et.
   destruct (removed_tokens (pool_of s o a) sh) as [tok| |] eqn:RT; try discriminate.
@@ -466,6 +453,40 @@ Proof.
       apply k3_eqb_spec in E. inversion E; subst. intros _. apply L2. unfold mine' in *. lia.
     + intros st' a' o'. rewrite Hshare, Hlist.
       destruct (k3_eqb (st', a', o') (st, a, o)) eqn:E; [intros; assumption|apply L3].
+Qed.
+
+Lemma Inv_undelegate ops s st a o amt s' : do_undelegate ops s st a o amt = Some s' -> Inv s -> Inv s'.
+Proof.
+  unfold do_undelegate. destruct (negb (amt >? 0)); [discriminate|]. destruct (negb (mem o ops)); [discriminate|].
+  destruct (validate_undelegation s st a o amt) as [sh|]; [|discriminate]. apply Inv_remove_share.
+Qed.
+
+Lemma Inv_set_free s st a v : Inv s -> Inv (set_free s st a v).
+Proof. apply Inv_frame; simpl; auto. Qed.
+
+Lemma Inv_nst_fold prop st a rs : forall dep s s', nst_fold prop st a rs dep s = Some s' -> Inv s -> Inv s'.
+Proof.
+  induction rs as [|[o sh] r IH]; simpl; intros dep s s' H I; [injection H as <-; assumption|].
+  destruct (removed_tokens (pool_of s o a) (dec_mul sh prop)) as [tok| |]; try discriminate.
+  destruct (do_remove_share s st a o (dec_mul sh prop)) as [s1|] eqn:E; [|discriminate].
+  destruct (dep <? tok); [discriminate|].
+  eapply IH; [exact H|]. eapply Inv_remove_share; eauto.
+Qed.
+
+Lemma Inv_nst_balance s st a x pend dep s' : do_nst_balance s st a x pend dep = Some s' -> Inv s -> Inv s'.
+Proof.
+  unfold do_nst_balance. intros H I.
+  destruct (x >? 0); [injection H as <-; apply Inv_set_free; assumption|].
+  destruct (x =? 0); [injection H as <-; assumption|].
+  destruct (aget k2_eqb (st_free s) (st, a)) as [free|]; [|discriminate].
+  cbv zeta in H.
+  destruct (dep <? Z.min (- x) free); [discriminate|].
+  destruct (- x - free <=? 0); [injection H as <-; apply Inv_set_free; assumption|].
+  destruct (dep - Z.min (- x) free <? Z.min (- x - free) pend); [discriminate|].
+  destruct (- x - free - pend <=? 0); [injection H as <-; apply Inv_set_free; assumption|].
+  destruct (total_delegated _ a _) as [tot|]; [|discriminate].
+  destruct (tot =? 0); [injection H as <-; apply Inv_set_free; assumption|].
+  eapply Inv_nst_fold; [exact H|]. apply Inv_set_free. assumption.
 Qed.
 
 Lemma Inv_slash_one prop s k : 0 <= prop <= P -> Inv s -> Inv (slash_one prop s k).
@@ -554,6 +575,7 @@ Proof.
   - eapply Inv_associate; eauto.
   - eapply Inv_dissociate; eauto.
   - eapply Inv_slash; eauto.
+  - eapply Inv_nst_balance; eauto.
 Qed.
 
 Theorem Inv_run ops l : forall s, Inv s -> Inv (run ops s l).
